@@ -561,6 +561,7 @@ func (p *Program) streamParam(fn *ssa.Function) (int, bool) {
 }
 
 func (p *Program) wireSigOf(fn *ssa.Function, idx int) *wireSig {
+	p.initMsgKinds()
 	if wireMemo[p] == nil {
 		wireMemo[p] = map[wireKey]*wireSig{}
 	}
@@ -879,9 +880,51 @@ func kindsOf(seq []wsym) string {
 	var parts []string
 	for _, s := range seq {
 		k := s.Kind
+		if k == "msg" && msgKinds != "" {
+			k = msgKinds // a nested message, spelled out: a caller may use the framing helper on one side and its parts on the other
+		}
 		parts = append(parts, k)
 	}
 	return strings.Join(parts, " ")
+}
+
+// msgKinds: what the message framing (Writer.WriteMessage / Reader.ReadMessage) puts on the wire, when both sides have one and
+// the same success-path signature (that agreement is an obligation of its own, C12.R1 "message framing"); "" otherwise.
+var msgKinds string
+var msgKindsDone = map[*Program]bool{}
+
+func (p *Program) initMsgKinds() {
+	if msgKindsDone[p] {
+		return
+	}
+	msgKindsDone[p] = true
+	msgKinds = ""
+	c := p.codec()
+	if c == nil || c.WriterT == nil || c.ReaderT == nil {
+		return
+	}
+	w, rd := p.methodNamed(c.WriterT, "WriteMessage"), p.methodNamed(c.ReaderT, "ReadMessage")
+	if w == nil || rd == nil {
+		return
+	}
+	one := func(sg *wireSig) string {
+		k := ""
+		for i, seq := range sg.Seqs {
+			ks := kindsOf(seq)
+			if i > 0 && ks != k {
+				return ""
+			}
+			k = ks
+		}
+		if strings.Contains(k, "msg") || strings.Contains(k, "UNSUPPORTED") || strings.Contains(k, "REC") || strings.Contains(k, "CALL") {
+			return ""
+		}
+		return k
+	}
+	a, b := one(p.wireSigOf(w, 0)), one(p.wireSigOf(rd, 0))
+	if a != "" && a == b {
+		msgKinds = a
+	}
 }
 
 // inlineCalls replaces CALL symbols by the helper's sequences.
